@@ -99,6 +99,21 @@ def check(spec):
         gr = [p.idx + 1 for p in mr.loads[0].pulses]
         if ga != [absn] or gr != [absn]:
             viol.append({'id': 'load-forms-differ', 'tag': t, 'k': k + 1, 'abs': absn, 'observed': [ga, gr]})
+    # one load attached, by several options, to the same row of two different objects and to all pulses of two objects:
+    # every option counts (the key of an attachment is load, pulse AND object)
+    two = [(t, b) for t, b in blocks if len(b) >= 1][:2]
+    if len(two) == 2:
+        k = min(len(two[0][1]), len(two[1][1]))
+        mm = build(args + ['--load=50+10j'] + ['--attach-load=1,%d,%d' % (k, t) for t, b in two])
+        got = sorted(p.idx + 1 for p in mm.loads[0].pulses)
+        exp = sorted(b[k - 1] for t, b in two)
+        if got != exp:
+            viol.append({'id': 'same-row-of-two-objects-not-both-loaded', 'expected': exp, 'observed': got})
+        mm = build(args + ['--load=50+10j'] + ['--attach-load=1,all,%d' % t for t, b in two])
+        got = sorted(p.idx + 1 for p in mm.loads[0].pulses)
+        exp = sorted(x for t, b in two for x in b)
+        if got != exp:
+            viol.append({'id': 'all-pulses-of-two-objects-not-all-loaded', 'expected': exp, 'observed': got})
     for v in viol:
         v['input'] = spec
     return viol
